@@ -203,7 +203,8 @@ def asan_run(work, lines, call, name):
 
 # ------------------------------------------------------------------ X3 guarded programs
 def run_guarded(run, work, nfuncs, name):
-    gen = c04_gen.Gen(random.Random("C04-x3-%s-%s" % (run.seed, name)))
+    # fixed family (independent of VERIF_SEED; quick = a prefix of thorough), as for C03's X2
+    gen = c04_gen.Gen(random.Random("C04-x3-family-%s" % name))
     funcs = [gen.function("f%d" % i) for i in range(nfuncs)]
     plain = gen.prologue() + "\n".join(t for f in funcs for t in f.text) + "\n"
     path = os.path.join(work, name + ".c")
